@@ -86,6 +86,9 @@ def tweak(world, rng):
                 pay = e["tdir"] + b"/files/" + e["name"]
                 for q in [q for q in nodes if q == pay or q.startswith(pay + b"/")]:
                     del nodes[q]
+                for n_ in nodes.values():
+                    if n_.get("hardlink") == pay:
+                        n_.pop("hardlink")          # (no longer the same file as the payload)
                 nodes[pay] = {"p": pay, "k": "d", "mode": 0o755, "mtime": 1000000310}
                 nodes[pay + b"/inside"] = {"p": pay + b"/inside", "k": "f", "data": b"dir payload", "mode": 0o644, "mtime": 1000000311}
     world["nodes"] = sorted(nodes.values(), key=lambda n: n["p"])
